@@ -245,7 +245,14 @@ func (s *store) listFull() (result listFullResult) {
 func (s *store) authenticate(username, password string) (result authenticateResult) {
 	result.ok, result.isAdmin, result.upgradeable, result.lastChanged, result.err = s.dir.Authenticate(username, password)
 	if result.ok && result.upgradeable && s.upgradeChan != nil {
-		s.upgradeChan <- updateRequest{username: username, password: password}
+		select {
+		case s.upgradeChan <- updateRequest{username: username, password: password}:
+		default:
+			// the upgrade queue is full - in local mode this is the dispatcher's own update
+			// queue, so blocking here would deadlock the agent. Skip this opportunistic
+			// upgrade, it will be retried on the next successful login.
+			wdl.Printf("upgrade: queue is full, skipping upgrade for '%s'", username)
+		}
 	}
 	return
 }
